@@ -92,13 +92,16 @@ func le64(v uint64) []byte { return binary.LittleEndian.AppendUint64(nil, v) }
 var errNoSidField = fmt.Errorf("session.Context has no settable sid field")
 
 // build makes the real context through the public API.
-func (c ctxSpec) build() (*session.Context, error) {
+func (c ctxSpec) build() (*session.Context, error) { return c.buildFor(1) }
+
+// buildFor makes the context of party id (1 or 2) of the two-party session.
+func (c ctxSpec) buildFor(id sharing.ID) (*session.Context, error) {
 	quorum := hashset.NewComparable[sharing.ID](1, 2).Freeze()
 	pair := make([]byte, 64)
 	for i := range pair {
 		pair[i] = byte(i)
 	}
-	ctx, err := session.NewContext(1, quorum, c.seed, map[sharing.ID][]byte{2: pair})
+	ctx, err := session.NewContext(id, quorum, c.seed, map[sharing.ID][]byte{3 - id: pair})
 	if err != nil {
 		return nil, err
 	}
